@@ -104,6 +104,29 @@ pub fn roundtrip(req: &Value) -> Value {
     }
 }
 
+/// read side: a spec-shaped env directory that libcnb did not write (files given by raw name/content bytes, one optional
+/// sub-directory), read with LayerEnv::read_from_layer_dir and compared with the expected environment built by inserts
+pub fn read_side(req: &Value) -> Value {
+    use std::os::unix::ffi::OsStrExt;
+    let tmp = tempfile::tempdir().unwrap();
+    let dir = tmp.path().join("n");
+    let sub = req["dir"].as_str().unwrap_or("env");
+    std::fs::create_dir_all(dir.join(sub)).unwrap();
+    for f in req["files"].as_array().unwrap_or(&vec![]) {
+        let p = dir.join(sub).join(os(&f["name"]));
+        if f["kind"].as_str() == Some("dir") {
+            std::fs::create_dir_all(&p).unwrap();
+        } else {
+            std::fs::write(&p, os(&f["content"]).as_bytes()).unwrap();
+        }
+    }
+    let expected = layer_env_bytes(&req["expected"]);
+    match LayerEnv::read_from_layer_dir(&dir) {
+        Ok(back) => json!({"read": "Ok", "equal": back == expected, "debug": format!("{back:?}").chars().take(600).collect::<String>()}),
+        Err(e) => json!({"read": format!("Err:{e}")}),
+    }
+}
+
 /// implicit layer paths: build bin/lib/include/pkgconfig of the requested kinds, write explicit entries, read, apply,
 /// then two read->write cycles comparing the env directories
 pub fn paths(req: &Value) -> Value {
